@@ -1,18 +1,5 @@
-import FsnVerif.Model.Proto
-/-! Kernel-evaluated tables over the 5632 core states of the protocol model (`decide +kernel`:
-the quantifier is a finite table; lifted to all states in `ProtoLemmas`). Kept in a module of
-their own because they take about a minute to check. -/
-namespace Proto
-
-/-! ### the three kernel-evaluated tables (strict protocol = the repaired code) -/
-
-theorem chk_inv : (core.all fun s => allLabels.all fun l =>
-    !Inv true s || (match step true s l with | none => true | some s' => Inv true s')) = true := by decide +kernel
-
-theorem chk_prog : (core.all fun s => !Inv true s || reach true 16 s) = true := by decide +kernel
-
-theorem chk_exit : (core.all fun s => !(Inv true s && s.doneClosed && !s.fdOpen) || reachExit true 16 s) = true := by
-  decide +kernel
-
-
-end Proto
+import FsnVerif.Proofs.ProtoTables1
+import FsnVerif.Proofs.ProtoTables2
+import FsnVerif.Proofs.ProtoTables3
+/-! Kernel-evaluated tables over the 5632 core states of the protocol model: `chk_inv`, `chk_prog`,
+`chk_exit` (one module each, checked in parallel). -/
